@@ -321,6 +321,59 @@ def long_needles(rng, count):
     return out
 
 
+def mixed_script_cases(rng, count):
+    """(haystack, needle, replacement) byte triples over a deliberately colliding repertoire."""
+    ascii_pats = " a_e-0.,"
+    out = []
+
+    def colliders(ch):
+        b = ord(ch)
+        cps = [0x100 + b, 0x400 + b, 0x2000 + b, 0x1F600 + (b & 0x3F), 0x10000 + b]
+        # code points one of whose UTF-8 continuation/lead bytes could be confused with b are
+        # impossible for ASCII b (all >= 0x80); for non-ASCII needles the shared-lead cases below
+        return [chr(c) for c in cps if not (0xD800 <= c <= 0xDFFF)]
+
+    scripts = [
+        [chr(c) for c in range(0x430, 0x450)],            # Cyrillic (2-byte, shared lead bytes D0/D1)
+        [chr(c) for c in range(0x3B1, 0x3CA)],            # Greek
+        [chr(c) for c in range(0x3041, 0x3060)],          # Hiragana (3-byte, shared E3 81)
+        ["é", "è", "ê", "ë", "ē", "ė"],                    # shared lead C3 / C4
+        [chr(c) for c in range(0x1F600, 0x1F610)],        # 4-byte, shared F0 9F 98
+    ]
+    for _ in range(count):
+        kind = rng.random()
+        if kind < 0.35:
+            p = rng.choice(ascii_pats)
+            pool = colliders(p) + [p, p, "x", "é", rng.choice(rng.choice(scripts))]
+            h = "".join(rng.choice(pool) for _ in range(rng.randint(0, 14)))
+            n = p
+        elif kind < 0.6:
+            sc = rng.choice(scripts)
+            pool = sc[:4] + [" ", "a"]
+            h = "".join(rng.choice(pool) for _ in range(rng.randint(0, 14)))
+            n = rng.choice(sc[:5])
+        elif kind < 0.85:
+            # words with a repeated first letter; overlapping partial matches before a real one
+            sc = rng.choice(scripts[:4] + [["a", "b", "c"]])
+            a, b, c = sc[0], sc[1], sc[2]
+            w = rng.choice([a + b + a + c, a + b + c + a + b + "d", a + a + b, a + b + a + b + c, b + a + b + a, a + b + a])
+            pre = rng.choice(["", a, a + b, w[:-1], w[:2] * 2, b, " "]) * rng.randint(0, 2)
+            h = pre + rng.choice([w, w[:-1] + w, w[:2] + w, w[:-1]]) + rng.choice(["", a, w[:2], " " + w])
+            n = w
+        else:
+            sc = rng.choice(scripts)
+            pool = sc[:3] + ["a", " "]
+            h = "".join(rng.choice(pool) for _ in range(rng.randint(1, 16)))
+            i = rng.randrange(len(h)); j = rng.randint(i + 1, min(len(h), i + 6))
+            n = h[i:j]
+            if rng.random() < 0.4:
+                k = rng.randrange(len(n))
+                n = n[:k] + rng.choice(pool) + n[k + 1:]
+        r = rng.choice(["", "_", "A", "é", n + n, "ж", n[:1]])
+        out.append((h.encode(), n.encode(), r.encode()))
+    return out
+
+
 # ----------------------------------------------------------------------------
 # numerals for to_number
 def exact_decimal(n, k):
@@ -535,6 +588,16 @@ def gen_cases(env):
         cases.append("find %s %s" % (hx(h), hx(n)))
         if rng.random() < 0.2:
             cases.append("replace %s %s %s" % (hx(h), hx(n), hx(b"X")))
+    # mixed-script texts: code points whose low byte, or one of whose UTF-8 bytes, equals a byte of
+    # the pattern (a per-character fast path that truncates or compares the wrong unit shows only
+    # there); needles = one ASCII char, one non-ASCII char, substrings of the haystack and their
+    # one-character mutations, words of a two-byte script with a repeated first letter
+    for h, n, r in mixed_script_cases(rng, 1500 if quick else 60000):
+        cases.append("find %s %s" % (hx(h), hx(n)))
+        cases.append("replace %s %s %s" % (hx(h), hx(n), hx(r)))
+        if rng.random() < 0.4:
+            cases.append("split %s %s" % (hx(h), hx(n)))
+            cases.append("splitjoin %s %s" % (hx(h), hx(n)))
     # slice / len / trim
     texts = ["", "a", "héllo", "日本語テキスト", "a🌎b", " \t x  ", " pad　", "ab" * 20]
     bounds = ["0", "-0", "0.5", "-0.5", "1", "-1", "2", "-2", "3.9", "-3.1", "100", "-100", "1e18", "-1e18", "nan", "inf", "-inf"]
